@@ -251,6 +251,9 @@ fn compile<E: Entry>(
         let mut ast = ast.clone();
 
         // reduced set of passes because only compile-time stuff is possible
+        // (there is no instruction language here, but `REG[..]` and `ins_..()` in an expression must still get
+        //  one so that they are diagnosed instead of tripping "must run assign_languages pass!")
+        crate::passes::resolution::assign_languages(&mut ast, crate::LanguageKey::Msg, ctx)?;
         crate::passes::resolution::resolve_names(&ast, ctx)?;
         crate::passes::type_check::run(&ast, ctx)?;
         crate::passes::evaluate_const_vars::run(ctx)?;
